@@ -3,9 +3,10 @@
 import sys, os, shutil, json, re
 P, X, caught, needs = sys.argv[1:5]
 import os as _os
-R2 = _os.environ.get("ROUND", "1") == "2"
-src = f"/tmp/seed-out/{P}-r2/{X}" if R2 else f"/tmp/seed-out/{P}/{X}"
-dst = f"/verif/seeded/{P}-r2-{X}" if R2 else f"/verif/seeded/{P}-{X}"
+RN = _os.environ.get("ROUND", "1")
+R2 = RN != "1"
+src = f"/tmp/seed-out/{P}-r{RN}/{X}" if R2 else f"/tmp/seed-out/{P}/{X}"
+dst = f"/verif/seeded/{P}-r{RN}-{X}" if R2 else f"/verif/seeded/{P}-{X}"
 os.makedirs(dst, exist_ok=True)
 shutil.copy(f"{src}/patch.diff", f"{dst}/patch.diff")
 if os.path.isdir(f"{dst}/demo"):
